@@ -170,6 +170,20 @@ CLAIMED = {
              'unittest.mock (patch/autospec, MagicMock call records).',
         technique='Coq proof (invariant preservation over operation histories; queue-rotation induction) + correspondence by vm_compute',
         design='6 C20'),
+    'C13': dict(
+        text='The dispatcher model has no state argument at all (dispatch is a function of configuration, request text and context); the library '
+             'state that survives a dispatch is the memo tables, modelled as transparent unbounded memoisation. Theorems, for histories of ANY '
+             'length: a lookup after any history returns the recomputed value, so parameter binding through the signature cache equals binding '
+             'without it (every C01-C04 theorem holds after any history); the table holds at most one entry per distinct key ever asked for, '
+             'hence at most one per registered (validator, function, exclusion) combination; the key is a function of the registration alone '
+             '(no request, context or per-request view instance). Correspondence: probe-after-history vs probe-on-fresh-dispatcher (standard '
+             'corpus also vs the stateless model; a rich configuration with twin registrations, parameterless methods, same-named pydantic '
+             'functions, views), memo-table growth and weak references to contexts after N dispatches, thread pools.',
+        note='PARTIAL by nature: garbage-collector reachability and OS-thread interleavings cannot be exhibited by a Gallina model; they are '
+             'observed (weakrefs after gc.collect(), 2..16 threads) and reported as tests. trusted: Coq kernel + vm_compute; lru_cache as transparent '
+             'memoisation; the set of memo tables was found by reading the source (a new cache elsewhere is only caught by the history/memory runs).',
+        technique='Coq proof (memo-table transparency and boundedness by induction over histories) + history/memory/thread correspondence',
+        design='6 C13'),
 }
 
 PENDING_REASON = 'not claimed yet: model, theorems and correspondence for this property are not all in place in this commit (see DESIGN.md section 10)'
